@@ -84,7 +84,16 @@ func LoadKnown(verif string) (*KnownFile, error) {
 }
 
 func (k *KnownFinding) matches(v *Violation) bool {
-	if k.Property != v.Property || k.Symptom != v.Symptom {
+	if k.Property != v.Property {
+		return false
+	}
+	symOK := false
+	for _, sy := range strings.Split(k.Symptom, "|") {
+		if sy == v.Symptom {
+			symOK = true
+		}
+	}
+	if !symOK {
 		return false
 	}
 	for key, want := range k.Match {
